@@ -70,6 +70,9 @@ func truncate(s *slip.Scope, f slip.Object, args slip.List, depth int) slip.Valu
 	num, div = slip.NormalizeNumber(num, div)
 	switch tn := num.(type) {
 	case slip.Fixnum:
+		if div.(slip.Fixnum) == 0 {
+			slip.ArithmeticPanic(s, depth, f, args, "divide by zero")
+		}
 		q = tn / div.(slip.Fixnum)
 		r = tn - q.(slip.Fixnum)*div.(slip.Fixnum)
 	case slip.SingleFloat:
